@@ -242,10 +242,15 @@ class ProbabilisticNode(Node):
             Removes the next states that have
             zero probability of reaching the final states.
         """
-        for _next_state in self.next_states:
-            next_state = state_list[_next_state[NEXT_STATE_IDX]]
-            if next_state.reach_probability == 0:
-                self.remove_path(_next_state)
+        dead = [_next_state for _next_state in self.next_states
+                if state_list[_next_state[NEXT_STATE_IDX]].reach_probability == 0]
+        if not dead:
+            return
+        removed_probability = sum(_next_state[PROBABILITY] for _next_state in dead)
+        self.next_states = [
+            (_next_state[PROBABILITY] / (1 - removed_probability), _next_state[NEXT_STATE_IDX])
+            for _next_state in self.next_states
+            if state_list[_next_state[NEXT_STATE_IDX]].reach_probability != 0]
 
     def remove_path(self, state_to_remove):
         """
@@ -325,10 +330,9 @@ class PlayerOne(Node):
             Removes the next states that have zero probability of reaching
             the final states.
         """
-        for _next_state in self.next_states:
-            next_state = state_list[_next_state[NEXT_STATE_IDX]]
-            if next_state.reach_probability == 0:
-                self.remove_path(_next_state)
+        self.next_states = [
+            _next_state for _next_state in self.next_states
+            if state_list[_next_state[NEXT_STATE_IDX]].reach_probability != 0]
 
     def remove_path(self, state_to_remove):
         """ 
